@@ -224,7 +224,9 @@ class Ctx:
             if "Parsing or semantic analysis failed" in out:
                 break
             self.log("TLC tool failure (attempt %d, rc=%d) on %s; retrying" % (attempt + 1, rc, os.path.basename(module)))
-        tail = "\n".join(last.out.splitlines()[-40:])
+        ol = last.out.splitlines()
+        ei = next((k for k, l in enumerate(ol) if l.startswith("Error:")), None)
+        tail = "\n".join(ol[ei:ei + 25] if ei is not None else ol[-40:])
         raise ToolError("TLC failed on %s:\n%s" % (module, tail))
 
     def tlc_batch_validate(self, trace_module, records, shards=None, timeout=900, name=None, env_extra=None):
@@ -446,3 +448,13 @@ def fval(x):
     if x["cls"] != "fin":
         return ("-" if x.get("s") else "") + x["cls"]
     return "%s%d*2^%d" % ("-" if x["s"] else "", wire_to_int(x["m"]), x["e"])
+
+
+def first_error_in_au(diag):
+    """True iff the first compiler error is located inside an Au header (not in generated code):
+    only then can a failed compile of a generated program be blamed on the library (DESIGN 5.4)."""
+    lines = diag if isinstance(diag, list) else diag.splitlines()
+    for l in lines:
+        if "error" in l:
+            return "/au/code/au/" in l.split("error")[0] or "au.hh" in l.split("error")[0]
+    return False
